@@ -45,6 +45,7 @@ def sortedNats (l : List Nat) : List Nat := (l.toArray.qsort (· < ·)).toList
 def concMonStep (_ : Unit) (w : List String) : Unit × String :=
   let (op, obs) := splitObs w
   match op with
+  | ["srcfacts"] => ((), if obs.head? == some "facts" then "ok" else "bad C02.unparsed_observation")
   | "round" :: rest =>
     let kv := kvOf rest
     match kvNat? kv "persist", obs with
